@@ -24,8 +24,8 @@ from typing import Any, Dict, List, Optional
 from hypothesis import strategies as st
 
 SCALARS = ["int", "float", "str", "bool"]
-PY = {"int": "int", "float": "float", "str": "str", "bool": "bool", "datetime": "datetime.datetime", "enum": "Color"}
-DEFAULTS = {"int": "0", "float": "0.0", "str": "''", "bool": "False", "datetime": "datetime.datetime(2020, 1, 1)", "enum": "Color.RED"}
+PY = {"int": "int", "float": "float", "str": "str", "bool": "bool", "datetime": "datetime.datetime", "enum": "Color", "uuid": "uuid.UUID"}
+DEFAULTS = {"uuid": "None", "int": "0", "float": "0.0", "str": "''", "bool": "False", "datetime": "datetime.datetime(2020, 1, 1)", "enum": "Color.RED"}
 
 
 def annotation(t, names) -> str:
@@ -46,6 +46,10 @@ def annotation(t, names) -> str:
         return f"Type[{names[t['c']]}]"
     if k == "ext":
         return "Outside"
+    if k == "alt":
+        return "Vec"
+    if k == "custom":
+        return "Money"
     raise ValueError(k)
 
 
@@ -53,7 +57,7 @@ def default_of(t) -> str:
     k = t["k"]
     if k in DEFAULTS:
         return DEFAULTS[k]
-    if k in ("opt", "ref", "ext", "type"):
+    if k in ("opt", "ref", "ext", "type", "alt", "custom"):
         return "None"
     if k in ("list", "seq"):
         return "field(default_factory=list)"
@@ -66,7 +70,7 @@ def render(ir, module_name: str, eq: bool = True) -> str:
     names = [c["name"] for c in ir["classes"]]
     lines = [
         "from __future__ import annotations",
-        "import datetime, enum",
+        "import datetime, enum, uuid",
         "from dataclasses import dataclass, field",
         "from typing_extensions import List, Optional, Set, Sequence, Type",
         "",
@@ -79,6 +83,8 @@ def render(ir, module_name: str, eq: bool = True) -> str:
         "    z: int = 0",
         "",
     ]
+    if ir.get("extras"):
+        lines += EXTRAS.splitlines()
     for c in ir["classes"]:
         base = f"({names[c['base']]})" if c["base"] is not None else ""
         lines.append("@dataclass" if eq else "@dataclass(eq=False)")
@@ -90,6 +96,50 @@ def render(ir, module_name: str, eq: bool = True) -> str:
         lines.append("")
     return "\n".join(lines)
 
+
+EXTRAS = '''
+from sqlalchemy import TypeDecorator, types
+from krrood.ormatic.dao import AlternativeMapping
+
+
+class Vec:
+    """not a dataclass: persisted through an alternative mapping (lossless)"""
+
+    def __init__(self, x, y):
+        self.x, self.y = x, y
+
+
+@dataclass
+class VecMapping(AlternativeMapping[Vec]):
+    x: float
+    y: float
+
+    @classmethod
+    def create_instance(cls, obj):
+        return cls(obj.x, obj.y)
+
+    def create_from_dao(self):
+        return Vec(self.x, self.y)
+
+
+class Money:
+    """a value persisted through a custom column type (lossless)"""
+
+    def __init__(self, cents):
+        self.cents = cents
+
+
+class MoneyType(TypeDecorator):
+    impl = types.Integer
+    cache_ok = True
+
+    def process_bind_param(self, value, dialect):
+        return None if value is None else value.cents
+
+    def process_result_value(self, value, dialect):
+        return None if value is None else Money(value)
+
+'''
 
 _COUNTER = itertools.count()
 
@@ -160,7 +210,7 @@ def classify(t) -> Dict[str, Any]:
 @st.composite
 def model_ir(draw, max_classes=6, grammar="diagram", allow_self=True, allow_ext=True, allow_type=True,
              allow_seq=True, allow_set=True, allow_self_collection=True, allow_underscore=True, require_builtin=False,
-             allow_mutual=True):
+             allow_mutual=True, extras=False, uid=False):
     """grammar: "diagram" (C17: everything) or "orm" (C06: the documented modelling rules)"""
     n = draw(st.integers(1, max_classes))
     classes = []
@@ -184,7 +234,8 @@ def model_ir(draw, max_classes=6, grammar="diagram", allow_self=True, allow_ext=
         for j in range(n_fields):
             kind = draw(st.sampled_from(["scalar", "scalar", "opt_scalar", "list_builtin", "ref", "opt_ref", "coll_ref", "coll_ref"]
                                         + (["type"] if allow_type and grammar == "diagram" else [])
-                                        + (["ext"] if allow_ext and grammar == "diagram" else [])))
+                                        + (["ext"] if allow_ext and grammar == "diagram" else [])
+                                        + (["alt", "opt_alt", "list_alt", "custom", "opt_custom"] if extras else [])))
             targets = list(range(n)) if allow_self else [x for x in range(n) if x != i]
             if not allow_mutual:
                 targets = [x for x in targets if x >= i] if allow_self else [x for x in targets if x > i]
@@ -194,6 +245,8 @@ def model_ir(draw, max_classes=6, grammar="diagram", allow_self=True, allow_ext=
                 t = {"k": "opt", "of": draw(scalar)}
             elif kind == "list_builtin":
                 t = {"k": "list", "of": draw(builtin_scalar)}
+                if grammar == "orm" and draw(st.integers(0, 3)) == 0:
+                    t = {"k": "list", "of": {"k": "uuid"}}  # a JSON list that needs krrood's JSON (de)serializer
             elif kind in ("ref", "opt_ref", "coll_ref", "type") and not targets:
                 t = draw(scalar)
             elif kind == "ref":
@@ -209,6 +262,16 @@ def model_ir(draw, max_classes=6, grammar="diagram", allow_self=True, allow_ext=
                     t = {"k": ck, "of": {"k": "ref", "c": tg}}
             elif kind == "type":
                 t = {"k": "type", "c": draw(st.sampled_from(targets))}
+            elif kind == "alt":
+                t = {"k": "alt"}
+            elif kind == "opt_alt":
+                t = {"k": "opt", "of": {"k": "alt"}}
+            elif kind == "list_alt":
+                t = {"k": "list", "of": {"k": "alt"}}
+            elif kind == "custom":
+                t = {"k": "custom"}
+            elif kind == "opt_custom":
+                t = {"k": "opt", "of": {"k": "custom"}}
             else:
                 t = {"k": "ext"}
             name = f"f{i}_{j}"
@@ -218,5 +281,12 @@ def model_ir(draw, max_classes=6, grammar="diagram", allow_self=True, allow_ext=
             used_names[i].add(name)
     if require_builtin and not any(classify(f["t"])["is_builtin"] and f["t"]["k"] in SCALARS for c in classes for f in c["fields"] if not f["name"].startswith("_")):
         classes[0]["fields"].append({"name": "f0_b", "t": {"k": "int"}})
+    if uid:
+        for c in classes:
+            if c["base"] is None:
+                c["fields"].insert(0, {"name": "uid", "t": {"k": "int"}})
     order = draw(st.permutations(list(range(n))))
-    return {"classes": classes, "order": list(order)}
+    out = {"classes": classes, "order": list(order)}
+    if extras:
+        out["extras"] = True
+    return out
